@@ -565,6 +565,7 @@ func TestC23(t *testing.T) {
 	r := newRun(t, "C23", "exploration")
 	defer r.Finish()
 	r.Rule = "passive scan of every outgoing message of both real nodes in a mix of two-node histories (happy, payment failing -> coop_close, taker dead -> CSV refund, cancel, claim failing) × roles × chains, plus the crash/restart histories of the lifecycle sweep, for the node's own secrets (swap private keys from committed records, claim and fee preimages of invoices it created, wallet blinding keys) in raw, hex (both cases), base64 (std/url) and reversed-hex form; the only allowed hit is the taker's own swap key as `privkey` of the coop_close of that swap. distinct = (chain, type, variant, final states)"
+	r.Rule += " In addition one real node in two swaps at once in opposite roles (maker for X with its retransmitter running every 5 ms, taker for Y ending in coop_close), in parallel worlds and one world at a time on a single-CPU process; every copy sent is scanned."
 	r.Assumptions = []string{"Bitcoin wallet keys live in the simulated lightningd/bitcoind wallet and never enter the peerswap process", "logs are not scanned (the property speaks of messages)"}
 	historyMix(r, r.N(3, 60), func(h *lcHist) { r.Eval(); c23Judge(r, h) })
 	lcSweep(r, []string{"btc", "lbtc"}, "happy", false, nil, func(h *lcHist) { c23Judge(r, h) })
